@@ -35,7 +35,9 @@ package witness
 //@ frame-trusted writes only its local scan destination; the query function is a database handle
 //@ site Err#1 as re
 //@ site Scan#1 as sc
+//@ site queryRow#1 as qr
 //@ requires queryRow != nil
+//@ at qr assert [the-held-sth-is-the-row-of-this-log] qr.query == "SELECT sth FROM sths WHERE logID = ?" && len(qr.args) == 1
 //@ ensures [row-error-passed-on] re.res != nil ==> result1 == re.res && len(result0) == 0
 //@ ensures [no-stored-sth-is-reported-as-not-found] sc.called && sc.res == sql.ErrNoRows ==> result1 != nil && grpcCode(result1) == 5 && len(result0) == 0
 //@ ensures [other-scan-errors-passed-on] sc.called && sc.res != nil && sc.res != sql.ErrNoRows ==> result1 == sc.res
@@ -50,6 +52,8 @@ package witness
 //@ requires tx != nil
 //@ ensures [stored-only-if-written-and-committed] result == nil ==> ex.called && ex.res1 == nil && cm.called && cm.res == nil
 //@ ensures [failed-write-is-not-committed] ex.res1 != nil ==> result != nil && !cm.called
+//@ at ex assert [one-row-per-log-the-new-sth-replaces-the-held-one] ex.query == "INSERT OR REPLACE INTO sths (logID, sth) VALUES (?, ?)" && len(ex.args) == 2
+//@ note the store is an SQL table: that it holds exactly the latest STH of each log rests on this statement, on the table definition in New (logID is the primary key) and on the query in getLatestSTH; SQL semantics are trusted
 
 //@ func (*Witness).signSTH
 //@ props C19
@@ -131,6 +135,7 @@ package witness
 //@ ensures [no-key-no-witness] (pd.called && pd.res0 == nil) || (pk.called && pk.res1 != nil) ==> result0 == nil
 //@ ensures [follows-exactly-the-configured-logs-on-the-given-store] result1 == nil ==> result0.db == wo.DB && result0.Logs == wo.KnownLogs && pk.called && pk.res1 == nil
 //@ at pk assert [key-parsed-from-the-configured-pem-block] pd.res0 != nil && pk.der == pd.res0.Bytes
+//@ at ex assert [the-store-keeps-one-row-per-log] ex.query == "CREATE TABLE IF NOT EXISTS sths (logID BLOB PRIMARY KEY, sth BLOB)"
 
 // The list of logs is what the store lists: one entry per row, in row order; a failing query, scan or
 // iteration gives no list.
